@@ -17,7 +17,7 @@ LEVEL = "model_checking"
 EXHAUSTIVE = True
 RULE = ("all histories of length L over {producer.send for 12 codes (class boundaries, reset codes), raw 8-byte frame x2, "
         "producer.reset, consumer.reset, add_callback}, log / active list / callback log compared with reference lists after "
-        "every step; full product code x register x data length for single frames; all 65536 codes for get_desc/str; "
+        "every step; four long cyclic histories of 300 / 1000 (5000, 20000) frames on one consumer; full product code x register x data length for single frames; all 65536 codes for get_desc/str; "
         "wait(): schedules of waiter x receiver (1..2 frames) x filter with <= P preemptions. state = history (no merging); "
         "non-trivial = histories containing a reset frame or consumer.reset after an error frame, schedules with a preemption")
 ASSUMPTIONS = [
@@ -56,6 +56,10 @@ def cases(tier, seed):
         for b in evs:
             out.append({"part": "hist", "prefix": [list(a), list(b)], "L": L})
     out.append({"part": "fields"})
+    # long histories on one consumer (logs, active lists and callback logs that grow far beyond the depth of the product)
+    for pat in ("errors-only", "cycle", "cycle-with-cb", "resets-every-100"):
+        for N in ((300, 1000) if tier == "quick" else (300, 1000, 5000, 20000)):
+            out.append({"part": "long", "pattern": pat, "N": N})
     for c in range(0, 65536, 8192):
         out.append({"part": "desc", "range": [c, c + 8192]})
     P = 2 if tier == "quick" else 3
@@ -174,6 +178,41 @@ def run_hist(case, st):
             st.outcome("history ok")
     st.states += n * (L + 1)
     st.sample({"prefix": case["prefix"], "histories": n}, cap=3)
+
+
+def run_long(case, st):
+    w = World()
+    pat, N = case["pattern"], case["N"]
+    if pat == "cycle-with-cb":
+        w.step(("cb",))
+        w.step(("cb",))
+    sends = [("send", i) for i in range(len(CODES)) if not R.is_reset(CODES[i])]
+    cyc = [e for e in EVENTS if e[0] not in ("creset", "cb")]
+    for k in range(N):
+        if pat == "errors-only":
+            ev = sends[k % len(sends)]
+        elif pat == "resets-every-100":
+            ev = ("preset",) if k % 100 == 99 else sends[k % len(sends)]
+        else:
+            ev = cyc[k % len(cyc)]
+        try:
+            w.step(ev)
+        except Exception as e:  # noqa: BLE001
+            st.violation(f"C16:long:raises:{type(e).__name__}", dict(case, at=k), "step accepted", repr(e)[:120])
+            return
+        st.transitions += 1
+        if k % 97 == 96 or k == N - 1 or k in (255, 256, 257, 511, 512, 1023, 1024):
+            v = w.compare()
+            if v:
+                sig, exp, obs = v[0]
+                st.violation(sig + ":long-history", dict(case, at=k), f"{len(w.ref_log)} log entries, {len(w.ref_active)} active, tail {exp}",
+                             f"{len(w.cons.log)} log entries, {len(w.cons.active)} active, tail {obs}")
+                return
+    st.evaluations += 1
+    st.traces += 1
+    st.nontrivial_n += 1
+    st.states += N
+    st.outcome("long history ok")
 
 
 def run_fields(case, st):
@@ -296,7 +335,7 @@ def run_wait(case, st):
 
 
 def run_case(case, st):
-    {"hist": run_hist, "fields": run_fields, "desc": run_desc, "wait": run_wait}[case["part"]](case, st)
+    {"long": run_long, "hist": run_hist, "fields": run_fields, "desc": run_desc, "wait": run_wait}[case["part"]](case, st)
 
 
 def finish(st, tier):
